@@ -105,6 +105,7 @@ def periodic_gaussian_t_profile(pulse_width,
     """
     rng = np.random.default_rng(seed)
     period = unit_utils.get_value(period, u.s)
+    phase = unit_utils.get_value(phase, u.s)
 
     factor = 2 * np.sqrt(2 * np.log(2))
     pulse_offset_sigma = unit_utils.get_value(pulse_offset_width, u.s) / factor
